@@ -145,7 +145,9 @@ class Spec(object):
         return "preempted" in res.flags
 
     def families(self, tier):
-        return focused(tier)
+        from .. import universal
+        # priority pre-emption only, customers never blocked (the statement's quantifier)
+        return focused(tier) + universal.subset(tier, ["preempt_"], exclude=["sched", "slotted", "cap", "ps_", "cinf", "c0"])
 
 
 def focused(tier):
